@@ -27,7 +27,15 @@ LEVEL_TEXT = ("Proved for the model, for EVERY oracle (numerics abstract), every
               "hypothesis that its candidates are proper subsets); total_saved_cnots is the sum of node savings = estimate(whole) - "
               "sum of factor estimates, 0 at the root and > 0 elsewhere (C08_saved_nonneg), hence never more CNOTs than exact "
               "low-rank preparation GIVEN C10 (C08_cnots_conditional); nested approximations multiply overlaps "
-              "(C08_true_loss_nested_partial: the algebraic core of the n<=3 true-loss claim). Tie: the executable model is run, "
+              "(C08_true_loss_nested_partial: the algebraic core of the n<=3 true-loss claim). Added: the candidates of "
+              "_greedy_combinations are non-empty strictly increasing lists of at most max_k qubits of the register, for every oracle "
+              "whose answer without low rank starts with the rank-1 separation (C08_greedy_candidates), hence exactness at zero loss "
+              "for ALL FOUR strategies (C08_zero_loss_all, supersedes C08_zero_loss_partial); every returned plan is reached in at most "
+              "n-1 approximations and for n<=3 at most one register of any reachable plan has more than one qubit - every plan is a "
+              "nesting of at most two splits with single-qubit siblings (C08_plan_nesting_n3); the rank-1 truncation has overlap "
+              "conj(s0), true loss 1-|s0|^2, and two nested truncations have true loss = accounted loss 1-(1-l2)(1-l1) "
+              "(C08_rank1_loss); combined for n<=3 in C08_true_loss_n3_partial (missing: identification of the model's plan tensor "
+              "with the bipartition-matrix form under the interleaved index maps). Tie: the executable model is run, "
               "in IEEE doubles and in exact rationals, on the oracle answers recorded from the real adaptive_approximation "
               "(_reduce_entanglement keyed by the local partition actually passed to schmidt_decomposition, cnot_count) and the "
               "whole pre-run and search trees (every node: vectors, qubits, ranks, partitions, losses, saved CNOTs), the sequence "
@@ -51,7 +59,8 @@ THEOREMS = ["Qclib.C08_assembly", "Qclib.C08_partition_of_qubits", "Qclib.C08_pa
             "Qclib.C08_local_partition", "Qclib.C08_budget", "Qclib.C08_budget_result", "Qclib.C08_search_best",
             "Qclib.C08_search_best_some", "Qclib.C08_zero_loss_only_exact_splits", "Qclib.C08_zero_loss_partial",
             "Qclib.C08_zero_loss", "Qclib.C08_saved_nonneg", "Qclib.C08_cnots_conditional",
-            "Qclib.C08_true_loss_nested_partial"]
+            "Qclib.C08_true_loss_nested_partial", "Qclib.C08_greedy_candidates", "Qclib.C08_zero_loss_all",
+            "Qclib.C08_plan_nesting_n3", "Qclib.C08_rank1_loss", "Qclib.C08_true_loss_n3_partial"]
 TRUSTED = [
     "np.linalg.svd via schmidt_decomposition/low_rank_approximation: fidelity losses 1 - sum(s_i^2) in [0,1]; at zero loss the vector is the "
     "one-term Schmidt composition of svd_u[:,0], svd_v[0,:] (hypothesis ExactSplits of C08_zero_loss; conclusion of C09_compose; validated by the "
